@@ -625,6 +625,133 @@ def agg_compare(c, i, m):
     return None
 
 
+# ---- G (fix-J): grouped statements through the aggregate branch of execute_select and the PIVOT BY branch of execute_query. Two families
+# the description-vs-value oracle had never seen: (dup) a grouping target referenced more than once in GROUP BY (expression + position,
+# twice by name, ...) FOLLOWED by further grouping targets of a different datatype; (pivot) an aggregate query grouped by two columns
+# and PIVOT BY them (by name / position), NULLs in the first and in the second pivot column, 1-2 remaining columns. Oracles: every cell
+# is None or an instance of the announced datatype; no exception; render_text formats the result; (dup) the rows are those of the same
+# statement with every grouping target referenced once; (pivot) the table is the plain-Python pivot of the rows of the same
+# statement without PIVOT BY (when no two of its rows share the pair of pivot values).
+GROUP_KEY_EXPRS = {T_INT: ['{0}', '{0}', '({0} + 1)'], T_STR: ['{0}', '{0}', 'length({0})', 'upper({0})'],
+                   T_DATE: ['{0}', '{0}', 'year({0})'], T_DEC: ['{0}'], T_BOOL: ['{0}']}
+GROUP_TYPES = [T_INT, T_DEC, T_STR, T_DATE, T_BOOL]
+
+
+def gen_group_case(rng, shape=None):
+    shape = shape or rng.choice(['dup', 'dup', 'pivot', 'pivot', 'plain'])
+    while True:
+        ncols = rng.randint(3, 5)
+        cols = [(n, rng.choice(GROUP_TYPES)) for n in 'abcde'[:ncols]]
+        if len({t for _, t in cols}) >= 3:
+            break
+    null_p = rng.choice([0.15, 0.3, 0.5])
+    nrows = rng.choice([2, 3, 5, 8, 12])
+    rows = [tuple(values.gen_value(rng, PY[t], null_p) for _, t in cols) for _ in range(nrows)]
+    nkeys = 2 if shape == 'pivot' else rng.choice([2, 3, 3])
+    kcols = rng.sample(cols, nkeys)
+    keys = []
+    for n, t in kcols:
+        text = rng.choice(GROUP_KEY_EXPRS[t]).format(n)
+        alias = f'k{len(keys)}' if (text != n and shape == 'pivot') or rng.random() < 0.3 else None
+        keys.append({'text': text, 'alias': alias, 'name': alias or (n if text == n else None), 'key': True})
+    aggs = []
+    for j in range(rng.choice([1, 1, 2])):
+        n, t = rng.choice(cols)
+        fns = ['count', 'first', 'last', 'min', 'max'] + (['sum'] if t in (T_INT, T_DEC) else [])
+        text = rng.choice(['count(*)', f'{rng.choice(fns)}({n})', f'{rng.choice(fns)}({n})'])
+        aggs.append({'text': text, 'alias': f'v{j}', 'name': f'v{j}', 'key': False})
+    targets = keys + aggs
+    if rng.random() < 0.5:
+        rng.shuffle(targets)
+    tl = ', '.join(t['text'] + (f' AS {t["alias"]}' if t['alias'] else '') for t in targets)
+
+    def ref(i, t, form=None):
+        form = form or rng.choice(['pos', 'name', 'expr'])
+        if form == 'name' and t['name']:
+            return t['name']
+        return str(i + 1) if form == 'pos' else t['text']
+    kidx = [i for i, t in enumerate(targets) if t['key']]
+    once = [str(i + 1) for i in kidx]
+    items = [ref(i, targets[i]) for i in kidx]
+    ndup = 0
+    if shape == 'dup':
+        # the duplicated target is NOT the last grouping target (in target order): further grouping columns follow it
+        for _ in range(rng.choice([1, 1, 2])):
+            i = rng.choice(kidx[:-1])
+            items.insert(rng.randrange(len(items) + 1), ref(i, targets[i]))
+            ndup += 1
+        if rng.random() < 0.5:
+            rng.shuffle(items)
+    head = f'SELECT {tl} FROM #t'
+    order = ''
+    if rng.random() < 0.3:
+        order = f' ORDER BY {rng.choice(kidx) + 1}'
+    c = {'group': True, 'shape': shape, 'cols': cols, 'rows': rows, 'ndup': ndup, 'pivot': None,
+         'key_types': [t for _, t in kcols], 'nother': len(targets) - 2,
+         'sql': f'{head} GROUP BY {", ".join(items)}{order}', 'ref_sql': f'{head} GROUP BY {", ".join(once)}{order}'}
+    if shape == 'pivot':
+        p1, p2 = kidx if rng.random() < 0.5 else kidx[::-1]
+        refs = [str(i + 1) if rng.random() < 0.5 else targets[i]['name'] for i in (p1, p2)]
+        c['pivot'] = [p1, p2]
+        c['sql'] += f' PIVOT BY {refs[0]}, {refs[1]}'
+    return c
+
+
+def _nullkey(v):
+    return (v is not None, v)
+
+
+def run_group_case(c):
+    """-> {'status', 'fails': [{'class', 'value'}], 'cells', 'null_label', 'null_second'}"""
+    res = {'status': 'ok', 'fails': [], 'cells': 0, 'null_label': 0, 'null_second': 0, 'out_rows': 0}
+    t = impl.make_table('t', [(n, PYT[ty]) for n, ty in c['cols']], c['rows'])
+    conn = impl.connection({'t': t})
+    try:
+        cur = conn.execute(c['sql'])
+        rows = cur.fetchall()
+        desc = cur.description
+    except impl.beanquery.CompilationError as e:
+        res['status'] = 'rejected'
+        res['reject'] = str(e)[:120]
+        return res
+    except Exception as e:  # noqa: BLE001
+        res['status'] = 'exception'
+        res['fails'].append({'class': f'raises:{type(e).__name__}', 'value': str(e)[:200]})
+        return res
+    res['out_rows'] = len(rows)
+    fails = []
+    res['cells'] = S.check_result(desc, rows, fails, c['sql'], None)
+    for f in fails[:3]:
+        res['fails'].append({'class': f['class'], 'value': f['value']})
+    r = S.render_check(desc, rows)
+    if r is not None:
+        res['fails'].append({'class': 'render:' + r.split(':')[0], 'value': r})
+    try:
+        ref = conn.execute(c['ref_sql']).fetchall()
+    except Exception as e:  # noqa: BLE001
+        res['fails'].append({'class': f'reference-statement-raises:{type(e).__name__}', 'value': str(e)[:200]})
+        return res
+    if c['pivot'] is None:
+        if [tuple(r) for r in rows] != [tuple(r) for r in ref]:
+            res['fails'].append({'class': 'rows-differ-from-statement-with-each-grouping-target-referenced-once',
+                                 'value': f'{rows!r} vs {ref!r}'[:300]})
+        return res
+    p1, p2 = c['pivot']
+    n = len(ref[0]) if ref else 0
+    other = [i for i in range(n) if i not in (p1, p2)]
+    res['null_label'] = int(any(r[p1] is None for r in ref))
+    res['null_second'] = int(any(r[p2] is None for r in ref))
+    if len({(r[p1], r[p2]) for r in ref}) == len(ref):
+        ks = sorted({r[p2] for r in ref}, key=_nullkey)
+        labels = sorted({r[p1] for r in ref}, key=_nullkey)
+        cell = {(r[p1], r[p2]): tuple(r[i] for i in other) for r in ref}
+        want = [(lab,) + sum((cell.get((lab, k), (None,) * len(other)) for k in ks), ()) for lab in labels]
+        got = [tuple(r) for r in rows]
+        if got != want or any(type(a) is not type(b) for ra, rb in zip(got, want) for a, b in zip(ra, rb)):
+            res['fails'].append({'class': 'pivot-table-differs-from-the-pivot-of-the-grouped-rows', 'value': f'{got!r} vs {want!r}'[:300]})
+    return res
+
+
 # ------------------------------------------------------------------ run
 
 def _sig_overload(sig, cls):
@@ -787,6 +914,42 @@ def run(tier, rng):
              'input': f['input'], 'class': f['class'], 'value': f['value']}, signature=sig))
 
     lap('sweep 1 done')
+    # ---- G: duplicate GROUP BY references / PIVOT BY (fix-J)
+    gcases = [gen_group_case(rng) for _ in range(400 if quick else 5000)]
+    gout = core.pmap(run_group_case, gcases)
+    ghist = {'cases': len(gcases), 'shape': {}, 'status': {}, 'cells_checked': 0, 'duplicate_references': {}, 'pivot_null_in_first_column': 0,
+             'pivot_null_in_second_column': 0, 'pivot_remaining_columns': {}, 'key_datatypes_differ': 0, 'results_with_rows': 0}
+    gfail = {}
+    for c, r in zip(gcases, gout):
+        ghist['shape'][c['shape']] = ghist['shape'].get(c['shape'], 0) + 1
+        ghist['status'][r['status']] = ghist['status'].get(r['status'], 0) + 1
+        ghist['cells_checked'] += r['cells']
+        ghist['results_with_rows'] += r['out_rows'] > 0
+        ghist['key_datatypes_differ'] += len(set(c['key_types'])) > 1
+        if c['shape'] == 'dup':
+            ghist['duplicate_references'][c['ndup']] = ghist['duplicate_references'].get(c['ndup'], 0) + 1
+        if c['pivot'] is not None:
+            ghist['pivot_null_in_first_column'] += r['null_label']
+            ghist['pivot_null_in_second_column'] += r['null_second']
+            ghist['pivot_remaining_columns'][c['nother']] = ghist['pivot_remaining_columns'].get(c['nother'], 0) + 1
+        for f in r['fails']:
+            gfail.setdefault(f'group:{c["shape"]}:{f["class"]}', (c, f))
+    for sig, (c, f) in sorted(gfail.items(), key=lambda kv: 'value-type' not in kv[0])[:3]:
+        def gfails(cand, f=f):
+            return any(x['class'] == f['class'] for x in run_group_case(cand)['fails'])
+        small = shrink_rows(c, gfails)
+        f2 = next((x for x in run_group_case(small)['fails'] if x['class'] == f['class']), f)
+        violations.append(core.Violation(
+            'grouped-typing', f'`{small["sql"]}` over {small["cols"]} rows {small["rows"]}: {f2["class"]}: {f2["value"]}',
+            {'case': small, 'group': True, 'class': f['class'], 'value': f2['value']}, signature=sig))
+    cov['G_grouped_cases'] = ghist
+    cov['G_samples'] = [c['sql'] for c in gcases[:4]]
+    cov['G_rule'] = ('aggregate SELECTs over tables of 3-5 columns of >=3 datatypes, 15-50% NULLs, 2-3 grouping targets (columns, length/upper/'
+                     'year/+1 of them) referenced by position / name / expression: (dup) one or two grouping targets referenced again in GROUP BY, '
+                     'further grouping targets after them; (pivot) PIVOT BY the two grouping targets by name / position in both orders, 1-2 '
+                     'remaining columns; (plain). Every cell vs the announced datatype, render_text, no exception, rows == the statement with '
+                     'each grouping target referenced once, pivoted table == plain-Python pivot of the grouped rows')
+    lap('G done')
     # ---- sweep 2 / 3
     nled = 20 if quick else 500
     per = 1 if quick else 2
@@ -836,7 +999,7 @@ def run(tier, rng):
 
     s1cells = sum(r['cells'] for r in r1) + sum(r['cells'] for r in rin)
     cov.update({
-        'evaluations': len(cases) + len(acases) + len(dcases) + len(qcases) + sum(r['rows'] for r in r1) + sum(r['rows'] for r in rin) + lq,
+        'evaluations': len(cases) + len(acases) + len(dcases) + len(qcases) + len(gcases) + sum(r['rows'] for r in r1) + sum(r['rows'] for r in rin) + lq,
         'distinct_nontrivial': len(nontrivial),
         'rule': 'A: typed expression trees (exprgen, depth<=%d) and single-node mutants with operand dtypes drawn from '
                 '{int,decimal,str,date,bool,object,NULL} over tables of 3-7 columns: description datatype vs type_of, rejection vs None, '
@@ -910,6 +1073,9 @@ def replay(rec):
         c['hidden'] = [tuple(t) for t in c['hidden']]
         m = core.coq_eval('c04r', IMPORTS, [desc_model_expr(c)])[0]
         return desc_compare(c, run_desc_impl(c), m) is None
+    if 'case' in rec and rec.get('group'):
+        c = _unjson_rows(rec['case'])
+        return not any(f['class'] == rec['class'] for f in run_group_case(c)['fails'])
     if 'case' in rec and rec.get('agg'):
         c = _unjson_rows(rec['case'])
         m = core.coq_eval('c04r', IMPORTS, [agg_model_expr(c)])[0]
